@@ -33,10 +33,11 @@ var ErrInjected = errors.New("simnet: injected i/o error")
 type WriteFaultKind int
 
 const (
-	WriteOK    WriteFaultKind = iota
-	WriteShort                // accept K bytes, then fail
-	WriteErr0                 // fail with n = 0
-	WriteStall                // accept K bytes, then block until the write deadline
+	WriteOK          WriteFaultKind = iota
+	WriteShort                      // accept K bytes, then fail
+	WriteErr0                       // fail with n = 0
+	WriteStall                      // accept K bytes, then block until the write deadline
+	WriteDeadlineErr                // the next SetWriteDeadline that arms a deadline fails; writes are untouched
 )
 
 // WriteFault is armed on a connection by a simulator action and consumed by the next Write.
@@ -277,7 +278,11 @@ func (c *Conn) Write(p []byte) (int, error) {
 		return 0, &net.OpError{Op: "write", Net: "tcp", Addr: c.raddr, Err: syscall.EPIPE}
 	}
 	f := c.wfault
-	c.wfault = nil
+	if f != nil && f.Kind == WriteDeadlineErr {
+		f = nil // waits for a SetWriteDeadline
+	} else {
+		c.wfault = nil
+	}
 	off := len(c.c2s)
 	if f == nil || f.Kind == WriteOK {
 		if c.Chunk > 0 && len(p) > c.Chunk && c.net.Yield != nil {
@@ -431,6 +436,12 @@ func (c *Conn) SetWriteDeadline(t time.Time) error {
 		c.mu.Unlock()
 		return &net.OpError{Op: "set", Net: "tcp", Addr: c.raddr, Err: net.ErrClosed}
 	}
+	if f := c.wfault; f != nil && f.Kind == WriteDeadlineErr && !t.IsZero() {
+		c.wfault = nil
+		c.mu.Unlock()
+		c.net.Rec("write-fault %s set-deadline-error", c.Name)
+		return &net.OpError{Op: "set", Net: "tcp", Addr: c.raddr, Err: syscall.EINVAL}
+	}
 	c.wrDeadline = t
 	c.mu.Unlock()
 	return nil
@@ -551,5 +562,12 @@ func (c *Conn) PartialWrite() bool {
 func (n *Net) DialOnce(host string, m DialMode) {
 	n.mu.Lock()
 	n.once[host] = append(n.once[host], m)
+	n.mu.Unlock()
+}
+
+// ClearDialOnce forgets the one-shot dial behaviours that were not used up.
+func (n *Net) ClearDialOnce() {
+	n.mu.Lock()
+	n.once = map[string][]DialMode{}
 	n.mu.Unlock()
 }
